@@ -119,7 +119,8 @@ def sigma_facts(ob, axioms, depth=2):
                 s.add(a)
             s.add(rng)
             s.add(body < 0)
-            if s.check() == z3.unsat:
+            nonneg_ok = s.check() == z3.unsat
+            if nonneg_ok:
                 facts.append(app >= 0)
                 facts.append(z3.ForAll(ks, z3.Implies(rng, body <= app)))
                 # a sum is zero iff all terms are (follows from the two above); also
@@ -137,6 +138,8 @@ def sigma_facts(ob, axioms, depth=2):
                             )
                         except Exception:
                             pass
+            if nonneg_ok:
+                facts.extend(_subsum_facts(app, binders, body, fc, ob, axioms, frontier))
             if len(binders) >= 2:
                 # a binder whose range is a singleton can be eliminated
                 for bi, (v, n) in enumerate(binders):
@@ -155,19 +158,82 @@ def sigma_facts(ob, axioms, depth=2):
     return facts
 
 
+def _find_index_terms(body, v):
+    """subterms g(.., v) with g a registered strictly-increasing index list function"""
+    out = {}
+    stack = [body]
+    seen = set()
+    while stack:
+        t = stack.pop()
+        if t.get_id() in seen:
+            continue
+        seen.add(t.get_id())
+        if z3.is_app(t):
+            ch = t.children()
+            if (
+                t.decl().kind() == z3.Z3_OP_UNINTERPRETED
+                and t.decl().name() in core.INDEX_FNS
+                and ch
+                and ch[-1].eq(v)
+                and not any(core._has_const(c, v) for c in ch[:-1])
+            ):
+                out[t.get_id()] = t
+                continue
+            stack.extend(ch)
+    return list(out.values())
+
+
+def _subsum_facts(app, binders, body, fc, ob, axioms, frontier):
+    """A-SUBSUM (lemmas/SigmaRules.lean: sum_image_le): a sum of non-negative terms over a
+    strictly increasing index list into [0, n) is bounded by the sum over all of [0, n)."""
+    facts = []
+    for bi, (v, n) in enumerate(binders):
+        terms = _find_index_terms(body, v)
+        if len(terms) != 1:
+            continue
+        t = terms[0]
+        upper = core.INDEX_FNS[t.decl().name()][1]
+        j = fc.fresh_int("j")
+        sg._BINDER_IDS[j.get_id()] = j
+        body2 = z3.substitute(body, (t, j))
+        if core._has_const(body2, v):
+            continue
+        others = [b for k, b in enumerate(binders) if k != bi]
+        # the extended summand must be non-negative on the whole range
+        s = z3.Solver()
+        s.set("timeout", 2000)
+        for h in ob.hyps:
+            s.add(h)
+        for a in axioms:
+            s.add(a)
+        s.add(j >= 0, j < core.zi(upper))
+        for ov, on in others:
+            s.add(ov >= 0, ov < on)
+        s.add(body2 < 0)
+        if s.check() != z3.unsat:
+            continue
+        try:
+            full = sg.multi_sigma([(j, core.zi(upper))] + others, body2, fc)
+        except Exception:
+            continue
+        facts.append(app <= full)
+        frontier.append(full)
+    return facts
+
+
 def discharge(ob, axioms, timeout_ms=None, want_model=False):
     """-> (status, secs, model|None)  status in proved / refuted / unknown"""
     t0 = time.time()
     g = core._bconst(ob.goal)
     if g is True:
         return "proved", 0.0, None
-    s = _mk_solver(ob, axioms, timeout_ms or TIMEOUT_MS)
+    has_sigma = bool(sg.sigma_registry())
+    s = _mk_solver(ob, axioms, min(1500, timeout_ms or TIMEOUT_MS) if has_sigma else (timeout_ms or TIMEOUT_MS))
     r = s.check()
-    if r != z3.unsat and sg.sigma_registry():
+    if r != z3.unsat and has_sigma:
         facts = sigma_facts(ob, axioms)
-        if facts:
-            s = _mk_solver(ob, list(axioms) + facts, timeout_ms or TIMEOUT_MS)
-            r = s.check()
+        s = _mk_solver(ob, list(axioms) + facts, timeout_ms or TIMEOUT_MS)
+        r = s.check()
     secs = time.time() - t0
     if r == z3.unsat:
         return "proved", secs, None
